@@ -38,6 +38,21 @@ SEQ_Q = [1, 9, 10, 100, 909, 1000, 9999]
 LEN_Q = [20, 99, 100, 1024, 4096, 8192, 10000, 16384]
 
 
+_PATH = None
+
+
+def _scratch_path():
+    global _PATH
+    if _PATH is None:
+        import atexit
+        import os
+        from mc import seams
+        os.makedirs(seams.SCRATCH, exist_ok=True)
+        _PATH = os.path.join(seams.SCRATCH, 'c01-%d.dlis' % os.getpid())
+        atexit.register(lambda: os.path.exists(_PATH) and os.remove(_PATH))
+    return _PATH
+
+
 def cut_alphabet(L):
     c = {1, 2, 11, 12, 13, L - 13, L - 12, L - 11, L - 2, L - 1, L // 2}
     return sorted(x for x in c if 0 < x < L)
@@ -135,6 +150,24 @@ def check_case(case):
         if ftype != 'RP66V1':
             bad.append(({'kind': 'label_not_identified_as_rp66v1'}, 'file with label %r is identified as %r, the tools will ignore it'
                         % (data[:20], ftype)))
+    if case['shape'] == 'L':
+        # the tools are given paths: the same path string, holding something else a moment ago, now holds this file
+        from TotalDepth.util import bin_file_type
+        path = _scratch_path()
+        try:
+            with open(path, 'wb') as f:
+                f.write(b'~Version Information\n VERS. 2.0 : CWLS\n' if int(lab.get('seq_text', '1')) % 2 else data[80:])
+            before = bin_file_type.binary_file_type_from_path(path)
+            with open(path, 'wb') as f:
+                f.write(data)
+            ptype = bin_file_type.binary_file_type_from_path(path)
+            with File.FileRead(path) as frp:
+                pgot = [(fld.lr_is_eflr, fld.lr_type, fld.logical_data.bytes, fld.lr_is_encrypted) for fld in frp.iter_logical_records()]
+        except Exception as err:  # noqa
+            before, ptype, pgot = None, 'raised %s: %s' % (type(err).__name__, err), got
+        if ptype != 'RP66V1' or pgot != got:
+            bad.append(({'kind': 'path_not_identified_as_rp66v1'}, 'the file written to a path that held other bytes before (identified as %r) is identified '
+                        'as %r by path and gives %d records (%d from the same bytes in memory)' % (before, ptype, len(pgot), len(got))))
     seq = int(lab.get('seq_text', '   1'))
     mx = int(lab.get('maxlen_text', '08192'))
     ident = lab.get('ident', 'Default Storage Set'.ljust(60)).encode('latin1')
@@ -228,6 +261,23 @@ def gen_giant(tier):
                 for eflr, typ in ((1, 0), (0, 127)):
                     rec = {'eflr': eflr, 'type': typ, 'L': L, 'lb': 'coded', 'cuts': cuts, 'opts': opts, 'newvr': newvr}
                     yield {'shape': 'G', 'recs': [rec, {'eflr': 1, 'type': 1, 'L': 13, 'lb': 'coded'}]}
+    # pad counts around the signed/unsigned byte boundary and at the one-byte maximum (the count is a USHORT, 2.2.2.1):
+    # payload lengths on both sides of 256 bytes of body, one and two segments, with and without trailers
+    for L in (12, 13, 72, 130, 300, 301):
+        for extra in (120, 124, 126, 128, 130, 200, 250, 252, 254):
+            for trail in (0, 1, 2, 3):
+                for cuts in ([], [L // 2]):
+                    n = len(cuts) + 1
+                    for padseg in range(n):
+                        body = (L - cuts[0] if padseg else cuts[0]) if cuts else L
+                        nb = 4 + body + (trail & 1) * 2 + (trail >> 1) * 2
+                        base = nb % 2 + max(0, 16 - (nb + nb % 2))
+                        if base + extra > 255:
+                            continue
+                        opts = [[trail & 1, trail >> 1, extra if s == padseg else 0] for s in range(n)]
+                        for eflr, typ in ((1, 3), (0, 0)):
+                            rec = {'eflr': eflr, 'type': typ, 'L': L, 'lb': 'coded', 'cuts': cuts, 'opts': opts, 'newvr': [0] * n}
+                            yield {'shape': 'G', 'recs': [rec, {'eflr': 1, 'type': 1, 'L': 13, 'lb': 'coded'}]}
 
 
 def gen_labels(tier, part):
